@@ -123,6 +123,20 @@ func waitFor(cond func() bool) bool {
 	}
 }
 
+// waitLong is waitFor for events whose delay is not what is being judged (answers on a machine that may be busy)
+func waitLong(cond func() bool) bool {
+	deadline := time.Now().Add(30 * time.Second)
+	for {
+		if cond() {
+			return true
+		}
+		if time.Now().After(deadline) {
+			return false
+		}
+		time.Sleep(500 * time.Microsecond)
+	}
+}
+
 func runC11(c c11Case) *Violation {
 	o := resolveHosts(c.Opts)
 	return withGateway(mkGateway(o), func() *Violation {
